@@ -506,6 +506,30 @@ class RawServer:
             c.wait_eof(1.0)
 
 
+class Ssh1OnlyBroken:
+    """An SSH-1-only peer whose SSH-1 side is broken, stateless (usable by a long-lived server): to a client that introduces itself as
+    SSH-2 it answers the plain-text line 'Protocol major versions differ.' and closes; to the tool's SSH-1 retry it sends a public-key
+    message with a bad CRC (or nothing at all)."""
+
+    def __init__(self, retry='badcrc'):
+        self.retry = retry
+
+    def __call__(self, c):
+        c.send(b'SSH-1.99-OpenSSH_3.0\r\n', 'banner')
+        line = c.recv_line(2.0) or b''
+        if line.startswith(b'SSH-2'):
+            c.send(b'Protocol major versions differ.\n', 'mismatch')
+        elif self.retry == 'badcrc':
+            pk = bytearray(frame1(pkm_payload(0x4c, 0x0c)))
+            pk[-1] ^= 0xff
+            c.send(bytes(pk), 'badpkm')
+        try:
+            c.s.shutdown(socket.SHUT_WR)
+        except OSError:
+            pass
+        c.wait_eof(2.0)
+
+
 class PerConn:
     """A different behaviour per connection index (the last one repeats): e.g. protocol-mismatch text on the first connection, an SSH-1 server on the retry."""
 
